@@ -22,6 +22,8 @@ import time
 import traceback
 
 VERIF = os.path.dirname(os.path.dirname(os.path.abspath(__file__)))
+# evidence/ and replays/ go to VERIF unless a scratch output directory is named (used when judging seeded mutants)
+OUT = os.environ.get('VERIF_OUT') or VERIF
 REPO = os.path.realpath(os.environ.get('VERIF_REPO', '/repo'))
 PY = os.environ.get('VERIF_PYTHON', '/venv/bin/python')
 NPROC = int(os.environ.get('VERIF_NPROC', '16'))
@@ -300,7 +302,7 @@ def summarize(mod, prop, tier, seed, cases, results, global_incon, t0, replay=No
         incon.append('no case produced a result')
     if not replay and counters.get('oracle_evals', 0) == 0:
         incon.append('no oracle was evaluated')
-    os.makedirs(os.path.join(VERIF, 'replays'), exist_ok=True)
+    os.makedirs(os.path.join(OUT, 'replays'), exist_ok=True)
     lines = []
     for mech, lst in sorted(known.items()):
         case, v = lst[0]
@@ -312,7 +314,7 @@ def summarize(mod, prop, tier, seed, cases, results, global_incon, t0, replay=No
     for clause, lst in sorted(by_clause.items()):
         for case, v in lst[:3]:
             name = f'{prop}-{stable_hash([case, v["clause"]])}.json'
-            path = os.path.join(VERIF, 'replays', name)
+            path = os.path.join(OUT, 'replays', name)
             with open(path, 'w') as fh:
                 json.dump(dict(property=prop, seed=seed, tier=tier, case=case, violation=v), fh, indent=1, default=repr)
             replay_paths.append(path)
@@ -349,8 +351,8 @@ def summarize(mod, prop, tier, seed, cases, results, global_incon, t0, replay=No
         violations=len(violations),
     )
     if not replay:
-        os.makedirs(os.path.join(VERIF, 'evidence'), exist_ok=True)
-        with open(os.path.join(VERIF, 'evidence', f'{prop}.json'), 'w') as fh:
+        os.makedirs(os.path.join(OUT, 'evidence'), exist_ok=True)
+        with open(os.path.join(OUT, 'evidence', f'{prop}.json'), 'w') as fh:
             json.dump(ev, fh, indent=1, default=repr)
     for ln in lines:
         print(ln)
